@@ -946,6 +946,13 @@ func (m *Memberlist) sendUserMsg(a Address, sendBuf []byte) error {
 		_ = conn.Close()
 	}()
 
+	// Bound the write like every other stream operation: a peer that accepts
+	// the connection and never reads would otherwise block the caller forever
+	// once the socket buffers are full.
+	if err := conn.SetDeadline(time.Now().Add(m.config.TCPTimeout)); err != nil {
+		return err
+	}
+
 	bufConn := bytes.NewBuffer(nil)
 	if err := bufConn.WriteByte(byte(userMsg)); err != nil {
 		return err
